@@ -11,16 +11,24 @@ theorem is the round trip `decode [] (encodeSflow d) = ok (expected d)` for ever
 datagram — any number and order of flow / counter / unknown samples, any combination of supported and
 unknown records, any field values that fit their fields, IPv4 and IPv6 agents — built from the leaves
 upward: field list → record → sample → datagram.  The sampled packet header enters the sFlow layer as
-its octets together with what they dissect to (`AFlowRec.raw … hdr p` with `dissect hdr proto = ok p`);
-the dissector theorems below state, per layer, that each output field is the value at its RFC position,
-`dissect_encodeHeader` composes them for every layer combination, and `decode_encode'` is the datagram
-theorem with raw-header records given by an abstract header (no dissection hypothesis left).
+its octets — *any* octets, 0 … 1500 of them, under any header protocol (`AFlowRec.raw proto … hdr`): the
+record is reported iff the dissector can break the header down (`raw_record_dissectable` /
+`raw_record_undissectable`), and in either case the record is consumed exactly and everything around it is
+decoded.  The dissector theorems below state, per layer, that each output field is the value at its RFC
+position, `dissect_encodeHeader` composes them for every layer combination, `undissectable_header` is the
+other half (cut short at any layer, not IP, an IP protocol without a struct, another header protocol: an
+error), and `decode_encode'` is the datagram theorem with raw-header records given by an abstract header of
+either kind (no dissection hypothesis left, no reference to the dissector in the expected datagram).
 
-The theorems are about the code after the `fix:` commits F5, F6, F7, F8, F14, F15, F17 (the model mirrors
-it).  F17: until the repair the specification encoder fixed the IPv4 header length at five words and
+The theorems are about the code after the `fix:` commits F5, F6, F7, F8, F14, F15, F17, F19 (the model
+mirrors it).  F17: until the repair the specification encoder fixed the IPv4 header length at five words and
 `decodeIPv4Header` skipped a fixed 20 octets; the property has no such restriction, so `encIPv4` now
 carries the options and every IPv4 statement below is quantified over them (`OptsWF`: 0 … 40 octets, a
-multiple of four, any content).
+multiple of four, any content).  F19: until the repair the raw-header record was well-formed only with
+`0 < hdr.length` and `dissect hdr proto = ok p` — hypotheses read off the code, not off the property (header
+lengths 0 … 1500, any frame) — the flow sample's source-id index was "skipped", the TCP reserved bits were
+"0", and an extended-router record had one of two lengths; on the code before the repair each of these was a
+lost datagram or a lost value (F19a–d).  All four hypotheses are gone.
 -/
 namespace Vflow.C07
 open Vflow Vflow.Sflow Vflow.Packet
@@ -56,10 +64,66 @@ theorem counter_layout_sizes :
     (counterLayout 5 = some vlanLayout ∧ (widths vlanLayout).sum = 28) ∧
     (counterLayout 1001 = some procLayout ∧ (widths procLayout).sum = 28) := by decide
 
-/-- **C07 (flow records)**: raw header with XDR padding, extended switch, extended router (IPv4 / IPv6
-next hop), unknown formats skipped by their declared length -/
+/-- **C07 (flow records)**: raw header of any content with XDR padding, extended switch, extended router
+(IPv4 / IPv6 next hop), unknown formats and extended-router records of any other length skipped by their
+declared length.  `AFlowRec.WF` asks only that the values fit their fields and the sampled header has at
+most 1500 octets. -/
 theorem flow_record_roundtrip (a : AFlowRec) (t : Bytes) (hwf : a.WF) :
     flowRecord (encFlowRec a ++ t) = .ok (expFlowRec a, t) := flowRecord_enc a t hwf
+
+/-- **C07 (raw header, dissectable)**: when the sampled octets dissect to `p`, the record yields the
+`RawHeader` entry `p` (all its fields: the dissector theorems below) and leaves exactly what follows -/
+theorem raw_record_dissectable (proto fl st : Nat) (hdr : Bytes) (p : Pkt) (t : Bytes)
+    (hwf : (AFlowRec.raw proto fl st hdr).WF) (hd : dissect hdr proto = .ok p) :
+    flowRecord (encFlowRec (.raw proto fl st hdr) ++ t) = .ok (some (.raw p), t) := by
+  have := flowRecord_enc (.raw proto fl st hdr) t hwf
+  simpa [expFlowRec, dissected_ok hd] using this
+
+/-- **C07 (raw header, undissectable — F19a)**: when the dissector rejects the sampled octets, the record
+yields no entry, is consumed exactly (four words, octets, padding) and the loop goes on with what follows;
+before the repair this was the dissector's error for the whole datagram -/
+theorem raw_record_undissectable (proto fl st : Nat) (hdr : Bytes) (e : Err) (t : Bytes)
+    (hwf : (AFlowRec.raw proto fl st hdr).WF) (hd : dissect hdr proto = .err e) :
+    flowRecord (encFlowRec (.raw proto fl st hdr) ++ t) = .ok (none, t) := by
+  have := flowRecord_enc (.raw proto fl st hdr) t hwf
+  simpa [expFlowRec, dissected_err hd] using this
+
+/-- there is no third case: the dissector returns a packet or an error on every octet string -/
+theorem dissect_total (hdr : Bytes) (proto : Nat) :
+    (∃ p, dissect hdr proto = .ok p) ∨ (∃ e, dissect hdr proto = .err e) := by
+  have hs := dissect_safe hdr proto
+  cases hx : dissect hdr proto with
+  | ok p => exact .inl ⟨p, rfl⟩
+  | err e => exact .inr ⟨e, rfl⟩
+  | panic => exact absurd hx hs.1
+  | fuel => exact absurd hx hs.2
+
+/-- the empty octet string is rejected under every header protocol -/
+theorem dissect_nil (proto : Nat) : ∃ e, dissect [] proto = .err e := by
+  unfold dissect
+  split
+  · exact ⟨.ethShort, by simp [dissectEth, decodeEthernet]⟩
+  · split
+    · exact ⟨.ip4Short, by simp [dissectV4, decodeIPv4]⟩
+    · split
+      · exact ⟨.ip6Short, by simp [dissectV6, decodeIPv6]⟩
+      · exact ⟨.hdrProto, rfl⟩
+
+/-- **C07 (empty sampled header)**: header length 0 — also as the very last record of the datagram
+(`t = []`), where `bytes.Reader.Read` would report `io.EOF` for the empty buffer — yields no entry and
+leaves what follows -/
+theorem raw_record_empty (proto fl st : Nat) (t : Bytes) (h : proto < 256 ^ 4 ∧ fl < 256 ^ 4 ∧ st < 256 ^ 4) :
+    flowRecord (encFlowRec (.raw proto fl st []) ++ t) = .ok (none, t) := by
+  obtain ⟨e, he⟩ := dissect_nil proto
+  exact raw_record_undissectable proto fl st [] e t ⟨⟨h.1, h.2.1, h.2.2, by decide, trivial⟩, by decide⟩ he
+
+/-- **C07 (extended router, other lengths — F19d)**: an extended-router record whose length is not that of
+an IPv4 / IPv6 next hop — address type 0 (unknown) has no address octets: 12; or any other length — is
+skipped by its declared length: no entry, what follows is left exactly -/
+theorem ext_router_other_length (body t : Bytes) (h : body.length ≠ 16 ∧ body.length ≠ 28) (hl : body.length < 256 ^ 4) :
+    flowRecord (be32 1002 ++ be32 body.length ++ body ++ t) = .ok (none, t) := by
+  have := flowRecord_enc (.unknown 1002 body) t ⟨by decide, by decide, fun _ => h, by decide, hl⟩
+  simpa [encFlowRec, expFlowRec] using this
 
 /-- **C07 (extended switch)**: the four words land in `SrcVlan, SrcPriority, DstVlan, DstPriority` in that
 order (F6 was the fourth landing in `SrcPriority`) -/
@@ -95,11 +159,13 @@ theorem ipv4_options_cut (d : Bytes) (h : 20 ≤ d.length) (h2 : d.length < ihlO
 theorem ipv6_fields (h : IPv6Hdr) (rest : Bytes) (hwf : h.WF) : decodeIPv6 (encIPv6 h ++ rest) = .ok (h, rest) :=
   decodeIPv6_enc h rest hwf
 
-/-- **C07 (TCP)**: RFC 793 positions (ports, data offset, the nine flag bits; reserved bits 0) -/
-theorem tcp_fields (sp dp seq ack off fl win cs urg : Nat) (rest : Bytes)
-    (hwf : sp < 65536 ∧ dp < 65536 ∧ off < 16 ∧ fl < 512) :
-    decodeTCP (encTCP sp dp seq ack off fl win cs urg ++ rest) = .ok (.tcp sp dp off 0 fl) :=
-  decodeTCP_enc sp dp seq ack off fl win cs urg rest hwf
+/-- **C07 (TCP)**: RFC 793 / 3540 positions: ports, data offset, the three reserved bits (any value 0 … 7 —
+F19c: they were reported as 0), the nine flag bits; the twelve bits after the data offset are split without
+overlap -/
+theorem tcp_fields (sp dp seq ack off res fl win cs urg : Nat) (rest : Bytes)
+    (hwf : sp < 65536 ∧ dp < 65536 ∧ off < 16 ∧ res < 8 ∧ fl < 512) :
+    decodeTCP (encTCP sp dp seq ack off res fl win cs urg ++ rest) = .ok (.tcp sp dp off res fl) :=
+  decodeTCP_enc sp dp seq ack off res fl win cs urg rest hwf
 
 /-- **C07 (UDP)**: RFC 768 positions -/
 theorem udp_fields (sp dp len cs : Nat) (rest : Bytes) (hwf : sp < 65536 ∧ dp < 65536) :
@@ -123,12 +189,12 @@ theorem vlan_fields (dst src : Bytes) (tci et : Nat) (rest : Bytes)
 
 /-- **C07 (whole header)**: an Ethernet / IPv4 (any options) / TCP header dissects into exactly its three
 layers: the TCP fields are those after the options -/
-theorem dissect_eth_ipv4_tcp (dst src : Bytes) (h : IPv4Hdr) (opts : Bytes) (sp dp seq ack off fl win cs urg : Nat)
+theorem dissect_eth_ipv4_tcp (dst src : Bytes) (h : IPv4Hdr) (opts : Bytes) (sp dp seq ack off res fl win cs urg : Nat)
     (payload : Bytes) (hm : dst.length = 6 ∧ src.length = 6) (hwf : h.WF) (ho : OptsWF opts) (hp : h.protocol = 6)
-    (ht : sp < 65536 ∧ dp < 65536 ∧ off < 16 ∧ fl < 512) :
-    dissect (encEth dst src 0x0800 ++ (encIPv4 h opts ++ (encTCP sp dp seq ack off fl win cs urg ++ payload))) 1 =
-      .ok ⟨⟨src, dst, 0, 0x0800⟩, .v4 h, .tcp sp dp off 0 fl⟩ :=
-  dissect_eth_ipv4_tcp_enc dst src h opts sp dp seq ack off fl win cs urg payload hm hwf ho hp ht
+    (ht : sp < 65536 ∧ dp < 65536 ∧ off < 16 ∧ res < 8 ∧ fl < 512) :
+    dissect (encEth dst src 0x0800 ++ (encIPv4 h opts ++ (encTCP sp dp seq ack off res fl win cs urg ++ payload))) 1 =
+      .ok ⟨⟨src, dst, 0, 0x0800⟩, .v4 h, .tcp sp dp off res fl⟩ :=
+  dissect_eth_ipv4_tcp_enc dst src h opts sp dp seq ack off res fl win cs urg payload hm hwf ho hp ht
 
 /-- **C07 (whole header, tagged, IPv6/UDP)** -/
 theorem dissect_vlan_ipv6_udp (dst src : Bytes) (tci : Nat) (h : IPv6Hdr) (sp dp len cs : Nat) (payload : Bytes)
@@ -140,21 +206,47 @@ theorem dissect_vlan_ipv6_udp (dst src : Bytes) (tci : Nat) (h : IPv6Hdr) (sp dp
 
 /-! ## non-vacuity -/
 
-/-- a well-formed abstract datagram: IPv4 agent; a flow sample with an extended switch record, an
-unknown record and an extended router record (IPv4 next hop); an enterprise-specific sample; a counter
+/-- a well-formed abstract datagram: IPv4 agent; a flow sample (source id type 2, index 17) with a raw
+header that is only an Ethernet header (14 octets: undissectable), an extended switch record, an unknown
+record, an extended router record with address type 0 (length 12: skipped), an extended router record with
+an IPv4 next hop, and an empty raw header as its last record; an enterprise-specific sample; a counter
 sample with a processor record -/
 def sample : ADatagram :=
   { agent := [10, 0, 0, 1], subID := 0, seqNo := 1, upTime := 2,
     samples := [
-      .flow 7 0 5 1 2 0 3 4 [.sw ⟨100, 5, 200, 6⟩, .unknown 1003 [1, 2, 3, 4], .rtr ⟨[192, 0, 2, 9], 24, 16⟩],
+      .flow 7 2 17 1 2 0 3 4 [.raw 1 64 4 [2, 0, 0, 0, 0, 1, 2, 0, 0, 0, 0, 2, 8, 0], .sw ⟨100, 5, 200, 6⟩,
+        .unknown 1003 [1, 2, 3, 4], .unknown 1002 [0, 0, 0, 0, 0, 0, 0, 24, 0, 0, 0, 16], .rtr ⟨[192, 0, 2, 9], 24, 16⟩,
+        .raw 1 0 0 []],
       .unknown (4413 * 4096 + 1) [0, 0, 0, 0, 0, 0, 0, 0],
       .counter 9 2 17 [.known 1001 [1, 2, 3, 4, 5]]] }
 
 set_option maxRecDepth 20000 in
-/-- the concrete datagram decodes to its expected value (by evaluation), with both samples present -/
-example : decode [] (encodeSflow sample) = .ok (expected sample) ∧
+theorem sample_wf : sample.WF := by
+  refine ⟨.inl rfl, by simp [Fits, sample], ?_⟩
+  intro s hs
+  simp only [sample, List.mem_cons, List.not_mem_nil, or_false] at hs
+  rcases hs with rfl | rfl | rfl
+  · refine ⟨by simp [Fits], by decide, by simp [Fits], ?_, by decide⟩
+    intro r hr
+    simp only [List.mem_cons, List.not_mem_nil, or_false] at hr
+    rcases hr with rfl | rfl | rfl | rfl | rfl | rfl <;> simp [AFlowRec.WF, Fits]
+  · exact ⟨by decide, by decide, by decide⟩
+  · refine ⟨by simp [Fits], ?_, by decide⟩
+    intro r hr
+    simp only [List.mem_cons, List.not_mem_nil, or_false] at hr
+    subst hr
+    exact ⟨procLayout, rfl, by simp [Fits, widths, procLayout]⟩
+
+set_option maxRecDepth 20000 in
+/-- the concrete datagram is well-formed and decodes to its expected value (by evaluation): the
+undissectable raw headers (Ethernet only; empty, at the very end of the sample) and the extended-router
+record of length 12 leave no entry and disturb nothing — the source id index 17, the switch and router
+records around them and the counter sample after them are all there -/
+example : sample.WF ∧ decode [] (encodeSflow sample) = .ok (expected sample) ∧
     (expected sample).samples.length = 1 ∧ (expected sample).counters.length = 1 ∧
-    ((expected sample).samples.map (·.recs.sw)) = [some ⟨100, 5, 200, 6⟩] := by decide
+    ((expected sample).samples.map (fun s => (s.sourceID, s.sourceIDIdx, s.recordsNo))) = [(2, 17, 6)] ∧
+    ((expected sample).samples.map (·.recs)) = [⟨none, some ⟨100, 5, 200, 6⟩, some ⟨[192, 0, 2, 9], 24, 16⟩⟩] :=
+  ⟨sample_wf, by decide, by decide, by decide, by decide, by decide⟩
 
 /-! ## every header combination, and the datagram theorem over abstract headers
 
@@ -175,9 +267,32 @@ theorem dissect_encodeHeader (h : AHeader) (payload : Bytes) (hwf : wfHeader h) 
     dissect (encodeHeader h ++ payload) (protoOf h) = .ok (expectedPacket h payload) :=
   Packet.dissect_encodeHeader h payload hwf
 
+/-- **C07 (undissectable headers — the other half of the dissector's specification)**: every abstract
+undissectable header (`ABad`: a well-formed header cut before the end of its transport header — inside the
+Ethernet header or tag, the fixed IP header, the IPv4 options, the TCP / UDP header, or empty; an ether type
+that is not IP, a second 802.1Q tag included; an IP protocol without a struct, IPv6 extension headers
+included; another sFlow header protocol) is an *error* of `packet.Decoder` — never a panic, never a packet -/
+theorem undissectable_header (b : ABad) (hwf : b.WF) : ∃ e, dissect b.octets b.proto = .err e :=
+  dissect_bad b hwf
+
+/-- the cut at every offset: of a well-formed header followed by payload, any prefix shorter than the three
+layers need (`needLen`: 14 / 18 + network header with options + 20 / 8 / 5) is an error -/
+theorem header_cut (h : AHeader) (payload : Bytes) (k : Nat) (hwf : wfHeader h) (hk : k < needLen h) :
+    ∃ e, dissect ((encodeHeader h ++ payload).take k) (protoOf h) = .err e :=
+  dissect_cut h payload k hwf hk
+
+/-- **C07 (undissectable record leaves the rest)**: in the expected sample, the records around an
+undissectable raw header build the same `Records` as if it were not there -/
+theorem undissectable_record_leaves_rest (a b : List AFlowRec') (fl st : Nat) (x : ABad) :
+    FlowRecs.ofList ((a ++ AFlowRec'.rawBad fl st x :: b).map expFlowRec') =
+      FlowRecs.ofList ((a ++ b).map expFlowRec') := by
+  simp only [List.map_append, List.map_cons, expFlowRec', ofList_skip]
+
 /-- **C07 (datagram, abstract headers)**: the round trip with raw-header records given by an abstract
-header, payload and XDR padding; it needs only the well-formedness of the abstract datagram (field
-ranges, sampled header at most 1500 octets, protocol numbers consistent with the layers) -/
+header — representable (with payload) or undissectable — and XDR padding; it needs only the
+well-formedness of the abstract datagram (field ranges, sampled header at most 1500 octets, protocol
+numbers consistent with the layers).  `expected' d` does not mention the dissector: a representable header
+stands for `expectedPacket h payload`, an undissectable one for no entry. -/
 theorem decode_encode' (d : ADatagram') (hwf : d.WF) : decode [] (encodeSflow' d) = .ok (expected' d) := by
   have h := decode_enc' [] d hwf
   have : dropTypes [] (expected' d) = expected' d := by simp [dropTypes]
@@ -190,12 +305,12 @@ def hdrVlanV4Icmp : AHeader :=
     net := .v4 ⟨4, 0, 34, 1, 2, 185, 64, 1, 0xabcd, [192, 0, 2, 1], [192, 0, 2, 2]⟩ [],
     trans := .icmp 8 0 0x1234 [0, 1, 0, 2] }
 
-/-- plain Ethernet + IPv6 + TCP (SYN|ACK, data offset 5) -/
+/-- plain Ethernet + IPv6 + TCP (data offset 5, reserved bits 0b101, NS|SYN|ACK: octet 12 = 0x5b) -/
 def hdrEthV6Tcp : AHeader :=
   { eth := some ⟨[2, 0, 0, 0, 0, 1], [2, 0, 0, 0, 0, 2], none⟩,
     net := .v6 ⟨6, 0xb8, 0xabcde, 20, 6, 64, [0x20, 1, 0xd, 0xb8, 0, 0, 0, 0, 0, 0, 0, 0, 0, 0, 0, 1],
                 [0x20, 1, 0xd, 0xb8, 0, 0, 0, 0, 0, 0, 0, 0, 0, 0, 0, 2]⟩,
-    trans := .tcp 443 51000 1 2 5 0x12 1024 0 0 }
+    trans := .tcp 443 51000 1 2 5 5 0x112 1024 0 0 }
 
 /-- header protocol 11: the sampled header starts at the IPv4 header; UDP -/
 def hdrV4Udp : AHeader :=
@@ -215,7 +330,7 @@ here no-operation options) + TCP -/
 def hdrEthV4MaxOptsTcp : AHeader :=
   { eth := some ⟨[2, 0, 0, 0, 0, 1], [2, 0, 0, 0, 0, 2], none⟩,
     net := .v4 ⟨4, 0, 80, 1, 0, 0, 64, 6, 0, [192, 0, 2, 1], [192, 0, 2, 2]⟩ (List.replicate 40 1),
-    trans := .tcp 443 51000 1 2 5 0x12 1024 0 0 }
+    trans := .tcp 443 51000 1 2 5 0 0x12 1024 0 0 }
 
 theorem hdrVlanV4Icmp_wf : wfHeader hdrVlanV4Icmp := by
   simp [wfHeader, hdrVlanV4Icmp, AEth.WF, ANet.WF, IPv4Hdr.WF, OptsWF, ATrans.WF, ATrans.protoOK, ANet.proto]
@@ -243,9 +358,10 @@ set_option maxRecDepth 20000 in
 /-- non-vacuity (Ethernet + IPv6 + TCP) -/
 example : wfHeader hdrEthV6Tcp ∧ protoOf hdrEthV6Tcp = 1 ∧
     dissect (encodeHeader hdrEthV6Tcp ++ []) 1 = .ok (expectedPacket hdrEthV6Tcp []) ∧
-    (expectedPacket hdrEthV6Tcp []).l4 = .tcp 443 51000 5 0 0x12 ∧
+    (expectedPacket hdrEthV6Tcp []).l4 = .tcp 443 51000 5 5 0x112 ∧
+    oct (encodeHeader hdrEthV6Tcp) (14 + 40 + 12) = 0x5b ∧
     (expectedPacket hdrEthV6Tcp []).l2 = ⟨[2, 0, 0, 0, 0, 2], [2, 0, 0, 0, 0, 1], 0, 0x86DD⟩ :=
-  ⟨hdrEthV6Tcp_wf, rfl, by decide, rfl, rfl⟩
+  ⟨hdrEthV6Tcp_wf, rfl, by decide, rfl, by decide, rfl⟩
 
 set_option maxRecDepth 20000 in
 /-- non-vacuity (header protocol 11, IPv4 + UDP): the datalink part is the zero value -/
@@ -277,22 +393,64 @@ example : wfHeader hdrEthV4MaxOptsTcp ∧ (encodeHeader hdrEthV4MaxOptsTcp).leng
     dissect ((encodeHeader hdrEthV4MaxOptsTcp).take 73) 1 = .err .ip4Short :=
   ⟨hdrEthV4MaxOptsTcp_wf, by decide, by decide, rfl, by decide⟩
 
+/-- an ARP request (ether type 0x0806) -/
+def badArp : ABad := .etherType ⟨[255, 255, 255, 255, 255, 255], [2, 0, 0, 0, 0, 2], none⟩ 0x0806 [0, 1, 8, 0, 6, 4, 0, 1]
+/-- QinQ: a second 802.1Q tag behind the first -/
+def badQinQ : ABad := .etherType ⟨[2, 0, 0, 0, 0, 1], [2, 0, 0, 0, 0, 2], some (0, 100)⟩ 0x8100 [0, 200, 8, 0]
+/-- IPv6 with a hop-by-hop extension header (next header 0), header protocol 12 -/
+def badV6Ext : ABad :=
+  .ipProto none (.v6 ⟨6, 0, 0, 16, 0, 64, [0x20, 1, 0xd, 0xb8, 0, 0, 0, 0, 0, 0, 0, 0, 0, 0, 0, 1],
+                      [0x20, 1, 0xd, 0xb8, 0, 0, 0, 0, 0, 0, 0, 0, 0, 0, 0, 2]⟩) [17, 0, 1, 4, 0, 0, 0, 0]
+/-- Ethernet + IPv4 carrying GRE (protocol 47) -/
+def badGre : ABad :=
+  .ipProto (some ⟨[2, 0, 0, 0, 0, 1], [2, 0, 0, 0, 0, 2], none⟩)
+    (.v4 ⟨4, 0, 28, 7, 0, 0, 64, 47, 0, [192, 0, 2, 1], [192, 0, 2, 2]⟩ []) [0, 0, 8, 0]
+/-- sFlow header protocol 7 (PPP) -/
+def badPpp : ABad := .hdrProto 7 [0xff, 3, 0, 0x21, 0x45]
+
+theorem badArp_wf : badArp.WF := by simp [badArp, ABad.WF, AEth.WF]
+theorem badQinQ_wf : badQinQ.WF := by simp [badQinQ, ABad.WF, AEth.WF]
+theorem badV6Ext_wf : badV6Ext.WF := by simp [badV6Ext, ABad.WF, ANet.WF, IPv6Hdr.WF, ANet.proto]
+theorem badGre_wf : badGre.WF := by simp [badGre, ABad.WF, AEth.WF, ANet.WF, IPv4Hdr.WF, OptsWF, ANet.proto]
+theorem badPpp_wf : badPpp.WF := by simp [badPpp, ABad.WF]
+
+set_option maxRecDepth 20000 in
+/-- non-vacuity of `undissectable_header`: the hypotheses hold of the five examples and of cuts of the
+Ethernet / IPv4 (40 option octets) / TCP header at offset 0 (empty), inside the Ethernet header, inside the
+fixed IPv4 header, inside the options, and one octet before the end of the TCP header (`needLen` = 94);
+by evaluation each is the error of the layer where it stops, and the uncut header is a packet -/
+example : badArp.WF ∧ badQinQ.WF ∧ badV6Ext.WF ∧ badGre.WF ∧ badPpp.WF ∧ needLen hdrEthV4MaxOptsTcp = 94 ∧
+    [badArp, badQinQ, badV6Ext, badGre, badPpp].map (fun b => dissect b.octets b.proto) =
+      [.err .etherType, .err .etherType, .err .l4Unknown, .err .l4Unknown, .err .hdrProto] ∧
+    [0, 13, 33, 73, 93].map (fun k => dissect (ABad.cut hdrEthV4MaxOptsTcp [1] k).octets 1) =
+      [.err .ethShort, .err .ethShort, .err .ip4Short, .err .ip4Short, .err .tcpShort] ∧
+    dissect ((encodeHeader hdrEthV4MaxOptsTcp ++ [1]).take 94) 1 = .ok (expectedPacket hdrEthV4MaxOptsTcp []) :=
+  ⟨badArp_wf, badQinQ_wf, badV6Ext_wf, badGre_wf, badPpp_wf, by decide, by decide, by decide, by decide⟩
+
 /-- a well-formed abstract datagram whose first flow sample carries three of the headers above as raw-header
-records (44 + 2, 74 and 28 + 3 sampled octets: padding 2, 2 and 1) and whose second carries the header with
-IPv4 options (36 sampled octets), then a counter sample -/
+records (44 + 2, 74 and 28 + 3 sampled octets: padding 2, 2 and 1) between undissectable ones (an ARP frame
+first, the IPv6 / TCP header cut after 20 octets in the middle, an empty header last); whose second carries
+the header with IPv4 options (36 sampled octets) followed by a GRE packet, an extended-router record with
+address type 0 and a QinQ frame; whose third has nothing but undissectable headers; then a counter sample -/
 def sample' : ADatagram' :=
   { agent := [10, 0, 0, 1], subID := 0, seqNo := 1, upTime := 2,
     samples := [
-      .flow 7 0 5 1 2 0 3 4 [.raw 1500 4 hdrVlanV4Icmp [9, 9], .raw 90 4 hdrEthV6Tcp [], .raw 31 0 hdrV4Udp [1, 2, 3]],
-      .flow 8 0 5 1 2 0 3 4 [.raw 40 4 hdrV4OptsUdp []],
+      .flow 7 0 5 1 2 0 3 4 [.rawBad 60 4 badArp, .raw 1500 4 hdrVlanV4Icmp [9, 9], .raw 90 4 hdrEthV6Tcp [],
+        .rawBad 90 4 (.cut hdrEthV6Tcp [] 20), .raw 31 0 hdrV4Udp [1, 2, 3], .rawBad 0 0 (.cut hdrV4Udp [] 0)],
+      .flow 8 2 17 1 2 0 3 4 [.raw 40 4 hdrV4OptsUdp [], .rawBad 64 4 badGre,
+        .unknown 1002 [0, 0, 0, 0, 0, 0, 0, 24, 0, 0, 0, 16], .rawBad 64 4 badQinQ],
+      .flow 9 0 1 1 2 0 3 4 [.rawBad 64 0 badV6Ext, .rawBad 64 0 badPpp],
       .counter 9 2 17 [.known 1001 [1, 2, 3, 4, 5]]] }
 
 set_option maxRecDepth 100000 in
 /-- non-vacuity of `decode_encode'`: by evaluation, the concrete datagram decodes to its expected value;
-the last raw-header record wins the `RawHeader` slot of the sample (a Go map) -/
+the last *dissectable* raw-header record wins the `RawHeader` slot of the sample (a Go map), the
+undissectable ones before, between and after leave no trace, the sample with only undissectable headers is
+there with an empty `Records`, and so is the counter sample behind it -/
 example : decode [] (encodeSflow' sample') = .ok (expected' sample') ∧
     ((expected' sample').samples.map (·.recs.raw)) =
-      [some (expectedPacket hdrV4Udp [1, 2, 3]), some (expectedPacket hdrV4OptsUdp [])] ∧
+      [some (expectedPacket hdrV4Udp [1, 2, 3]), some (expectedPacket hdrV4OptsUdp []), none] ∧
+    ((expected' sample').samples.map (fun s => (s.sourceID, s.sourceIDIdx, s.recordsNo))) = [(0, 5, 6), (2, 17, 4), (0, 1, 2)] ∧
     (expected' sample').counters.length = 1 := by decide
 
 /-! ## Obligations over regenerated facts
